@@ -10,3 +10,6 @@ Ltac tie_destr :=
     | _ => destruct x eqn:?
     end
   end.
+
+(* a leaf: both sides are the same value, or the path is contradictory (a test remembered with two different results) *)
+Ltac tie_done := first [reflexivity | congruence | discriminate].
